@@ -430,6 +430,7 @@ func specInScope(stack []scope, n int, s scope) bool {
 //@   loop @"range nameTokens[:i]" invariant[C07] the-name-differs-from-the-earlier-ones: forall(b, 0, rangeindex + 1, nameTokens[b].value != nameToken.value)
 //@   callsite checkNewVariableNameToken requires[C07] no-name-is-declared-twice-in-one-definition: forall(a, 0, len(nameTokens), forall(b, 0, a, nameTokens[b].value != nameTokens[a].value))
 //@   loop @"range nameTokens#2" invariant[C07,C10] names-checked-so-far: calls(checkNewVariableNameToken) == rangeindex + 1 && forall(k, 0, rangeindex + 1, arg(checkNewVariableNameToken, k, 1) == nameTokens[k])
+//@   loop @"range nameTokens#3" invariant[C06] a-variable-that-already-exists-keeps-its-type: len(variables) == rangeindex + 1 && forall(k, 0, rangeindex + 1, specVarVisible(ctx, nameTokens[k].value, p.prefix) ==> variables[k].valueType == get(ctx.variables, specVarKey(ctx, nameTokens[k].value, p.prefix)).valueType)
 //@   loop @"range values" invariant[C06] types-of-the-values-in-order: len(valuesTypes) == rangeindex + 1 && forall(k, 0, len(valuesTypes), valuesTypes[k] == values[k].ValueType())
 //@   loop @"range variables#1" invariant[C06] variables-so-far-take-a-value-of-their-type: len(variables) == len(valuesTypes) && forall(k, 0, rangeindex + 1, variables[k].valueType.Equals(valuesTypes[k]))
 //@   ensures[C06] each-value-has-the-type-of-its-variable: err == nil && isType(result0, "parser.VariableDefinition") && calls(evaluateValues) == 1 ==> len(asType(result0, "parser.VariableDefinition").variables) == len(asType(result0, "parser.VariableDefinition").values) && forall(k, 0, len(asType(result0, "parser.VariableDefinition").values), asType(result0, "parser.VariableDefinition").variables[k].valueType.Equals(asType(result0, "parser.VariableDefinition").values[k].ValueType()))
